@@ -3,6 +3,7 @@ import io
 import os
 import tempfile
 from hypothesis import strategies as st
+from vf.gen.perm import permutations
 from vf.common.core import Violation, check, guard, run_hypothesis, VERIF_ROOT
 from vf.common import be
 from vf.model import auction as A, play as P, pbn as MP
@@ -42,7 +43,7 @@ def pbn_board():
     return st.fixed_dictionaries({
         'id': NAME, 'dealer': st.integers(0, 3), 'vul': st.sampled_from(GB.VULS), 'spell': st.integers(0, 2),
         'owner': PL.DEAL, 'first': st.integers(0, 3),
-        'order': st.permutations(list(range(8))),
+        'order': permutations(list(range(8))),
         'extra': st.lists(st.tuples(TAGNAME, st.text(alphabet=ALPHA, max_size=15)), max_size=4, unique_by=lambda t: t[0]),
         'table': st.one_of(st.none(), st.tuples(TAGNAME.map(lambda s: s + 'Table'), st.text(alphabet=ALPHA + ';\\', max_size=20),
                                                 st.lists(ROW, max_size=5))),
@@ -63,7 +64,10 @@ LAYOUT = st.fixed_dictionaries({
 def plan(tier):
     n, per = (8, 250) if tier == 'quick' else (12, 8000)
     m, perm = (4, 150) if tier == 'quick' else (4, 5000)
-    return [{'kind': 'pbn', 'n': per} for _ in range(n)] + [{'kind': 'json', 'n': perm} for _ in range(m)]
+    sh = [{'kind': 'pbn', 'n': per} for _ in range(n)] + [{'kind': 'json', 'n': perm} for _ in range(m)]
+    if tier == 'thorough':       # coverage-guided campaigns on the same tests (atheris), own seed and corpus each
+        sh += [{'kind': 'fuzz', 'target': 'pbn', 'runs': 25000} for _ in range(6)] + [{'kind': 'fuzz', 'target': 'json', 'runs': 15000} for _ in range(2)]
+    return sh
 
 
 def to_model_board(b):
@@ -166,22 +170,35 @@ def check_json(boards, stats=None):
             stats.nt(text, {'text': text[:300]} if len(boards) == 2 else None)
 
 
+def fuzz_target(name, stats, d=None):
+    """(test function, strategies) - shared by the in-process Hypothesis tier and the atheris tier."""
+    if name == 'pbn':
+        d = d or tempfile.mkdtemp(prefix='tmp-', dir=_workdir())
+        return (lambda boards, layout: check_pbn(boards, layout, stats, d),
+                {'boards': st.one_of(st.lists(pbn_board(), min_size=0, max_size=1), st.lists(pbn_board(), min_size=2, max_size=5),
+                                     st.lists(pbn_board(), min_size=2, max_size=5)), 'layout': LAYOUT})
+    names = st.one_of(st.text(max_size=12), NAME)
+    return (lambda boards: check_json(boards, stats), {'boards': st.lists(GB.setting(names), min_size=0, max_size=10)})
+
+
 def run_shard(spec, seed, tier, stats):
     shrink = tier == 'thorough'
+    if spec['kind'] == 'fuzz':
+        from vf.common.fuzz import run_fuzz_shard
+        return run_fuzz_shard(ID, spec, seed, stats)
     if spec['kind'] == 'pbn':
         d = tempfile.mkdtemp(prefix='tmp-', dir=_workdir())
         try:
-            v = run_hypothesis(lambda boards, layout: check_pbn(boards, layout, stats, d),
-                               {'boards': st.one_of(st.lists(pbn_board(), min_size=0, max_size=1), st.lists(pbn_board(), min_size=2, max_size=5), st.lists(pbn_board(), min_size=2, max_size=5)), 'layout': LAYOUT}, seed, spec['n'], shrink)
+            fn, strategies = fuzz_target('pbn', stats, d)
+            v = run_hypothesis(fn, strategies, seed, spec['n'], shrink)
         finally:
             try:
                 os.rmdir(d)
             except OSError:
                 pass
     else:
-        names = st.one_of(st.text(max_size=12), NAME)
-        v = run_hypothesis(lambda boards: check_json(boards, stats),
-                           {'boards': st.lists(GB.setting(names), min_size=0, max_size=10)}, seed, spec['n'], shrink)
+        fn, strategies = fuzz_target('json', stats)
+        v = run_hypothesis(fn, strategies, seed, spec['n'], shrink)
     return [v] if v else []
 
 
